@@ -51,8 +51,20 @@ def do_solve(req):
     def on_model(m, step):
         syms = m.symbols(atoms=True) if atoms else m.symbols(shown=True)
         out['models'].append([step, sorted((sym_to_tuple(s) for s in syms), key=lambda x: (x[0], x[1], -1 if x[2] is None else x[2], x[3]))])
+    calls = []
+
+    class Counting:
+        """the Control object with solve() counted (number of solve calls and their results, for the loop correspondences)"""
+        def __getattr__(self, name):
+            return getattr(prg, name)
+
+        def solve(self, *a, **kw):
+            r = prg.solve(*a, **kw)
+            calls.append('S' if r.satisfiable else 'U' if r.unsatisfiable else 'K')
+            return r
+    out['calls'] = calls
     try:
-        telingo.imain(prg, fs, parts, on_model, imin=req.get('imin', 0), imax=imax, istop=req.get('istop', 'SAT'))
+        telingo.imain(Counting() if req.get('count_calls') else prg, fs, parts, on_model, imin=req.get('imin', 0), imax=imax, istop=req.get('istop', 'SAT'))
     except Exception as e:  # noqa
         r = exc_info(e)
         r['stage'] = 'imain'
